@@ -137,7 +137,7 @@ CLAIMED["C17"] = dict(
 CLAIMED["C15"] = dict(
     level=("Static census and guard discipline: every static / thread-local with interior mutability (4 logical items) is in a "
            "reviewed table and any addition is a violation; the anchor store is mutated only by 7 reviewed functions of its own "
-           "module and reset() clears every field; with_document_scope resets before, constructs a guard (whose Drop resets) before "
+           "module; with_document_scope takes the whole state out (mem::take at the state's own type), constructs a guard (whose Drop puts back what was taken with a whole-state mem::replace, handing the finished state out of the borrow) before "
            "the user closure, drops it on every normal path and on the unwind edge; with_anchor_context pushes and guards likewise; "
            "the fallback cell is written only by its guard, every guard is bound to a named local or the fallback_guard field and "
            "restores the saved value; no guard type is Clone / Copy and nothing calls mem::forget / ManuallyDrop::new / Box::leak "
@@ -225,7 +225,7 @@ _ADDED = {
     "C10": " Also (TAKE-ONCE): the stored I/O error is never taken after seen_doc_end was set in the same pump call (interprocedural set / take ordering).",
     "C12": " Also: bare float words derived from the reader's core-parse fallback, Unicode edge blanks (sibling of str::trim), the block indentation indicator is relative and step-guarded and decided on the first non-empty line, long keys take the explicit form. The two float writers only append and emit the same pieces.",
     "C13": " Also: HINT-RESET, SIBLING over the dash emitters and the variant positioners, and ALIGN / EMPTY, whose four sites are the recorded known findings K1 / K2 (printed as KNOWN-FINDING lines). serialize_newtype_variant clears pending_inline_map on every path to the payload.",
-    "C14": " Also (PLACEHOLDER): the null delivered for a cyclic alias carries the alias's anchor id. reset() clears every table on every path, or behind a flag that every inserter of that table sets (shared with C15).",
+    "C14": " Also (PLACEHOLDER): the null delivered for a cyclic alias carries the alias's anchor id. the document scope swaps the whole anchor state out and back (shared with C15: STATE:scope-swaps-whole-state).",
     "C15": " Also: every guard's Drop performs its restore on every path. The document scope sets the enclosing call's error-location fallback aside (also on unwinding); reset-complete is a path rule per field.",
     "C16": " Also (USE-SITE): both event sources consult their use-site override before any other condition. A function that has a use-site parameter builds its replay source with it; reference-less replays are a reviewed table.",
     "C17": " Also (COLUMN): the two-sided cropper is applied to context lines only, so the stored error line keeps the prefix the renderer indexes. The secondary window measures the caret on the text returned by the cropper and formats every line with the gutter width.",
@@ -357,7 +357,7 @@ CLAIMED["C17"] = dict(
 CLAIMED["C15"] = dict(
     level=("Static census and guard discipline: every static / thread-local with interior mutability (4 logical items) is in a "
            "reviewed table and any addition is a violation; the anchor store is mutated only by 7 reviewed functions of its own "
-           "module and reset() clears every field; with_document_scope resets before, constructs a guard (whose Drop resets) before "
+           "module; with_document_scope takes the whole state out (mem::take at the state's own type), constructs a guard (whose Drop puts back what was taken with a whole-state mem::replace, handing the finished state out of the borrow) before "
            "the user closure, drops it on every normal path and on the unwind edge; with_anchor_context pushes and guards likewise; "
            "the fallback cell is written only by its guard, every guard is bound to a named local or the fallback_guard field and "
            "restores the saved value; no guard type is Clone / Copy and nothing calls mem::forget / ManuallyDrop::new / Box::leak "
